@@ -195,10 +195,10 @@ theorem GoodRs.mono {L : Nat} {obs obs' : List P} {rs : Reservoirs K P}
 theorem GoodRs.nil (L : Nat) (obs : List P) : GoodRs L obs ([] : Reservoirs K P) :=
   ⟨by simp, by simp⟩
 
-/-- the dict after "create the routed leaf's reservoir if new, then clean up" and before the insertion -/
+/-- the dict after "create the routed leaf's reservoir if new, then clean up (on EVERY update)" and before the insertion -/
 def prepare (L : Nat) (rs : Reservoirs K P) (leaf : Nat) (allLeaves : List Nat) : Reservoirs K P :=
-  if (findR rs leaf).isSome then rs
-  else (rs ++ [(leaf, GeometricReservoirStorage.init L (some (1 : K)) false)]).filter (fun e => allLeaves.contains e.1)
+  (if (findR rs leaf).isSome then rs
+   else rs ++ [(leaf, GeometricReservoirStorage.init L (some (1 : K)) false)]).filter (fun e => allLeaves.contains e.1)
 
 theorem updateFeature_eq (L : Nat) (rs : Reservoirs K P) (leaf : Nat) (allLeaves : List Nat) (x : P) (rnd : Rnd K) :
     updateFeature L rs leaf allLeaves x rnd =
@@ -209,15 +209,16 @@ theorem updateFeature_eq (L : Nat) (rs : Reservoirs K P) (leaf : Nat) (allLeaves
 
 theorem prepare_keys (L : Nat) (rs : Reservoirs K P) (leaf : Nat) (allLeaves : List Nat) :
     (prepare (K := K) L rs leaf allLeaves).map Prod.fst =
-      if leaf ∈ rs.map Prod.fst then rs.map Prod.fst
-      else (rs.map Prod.fst ++ [leaf]).filter (fun k => allLeaves.contains k) := by
+      (if leaf ∈ rs.map Prod.fst then rs.map Prod.fst
+       else rs.map Prod.fst ++ [leaf]).filter (fun k => allLeaves.contains k) := by
   unfold prepare
   by_cases h : leaf ∈ rs.map Prod.fst
   · have : (findR rs leaf).isSome = true := by
       cases hf : findR rs leaf with
       | none => exact absurd h ((findR_eq_none_iff rs leaf).1 hf)
       | some r => rfl
-    rw [if_pos this, if_pos h]
+    rw [if_pos this, if_pos h, List.filter_map]
+    rfl
   · have : findR rs leaf = none := (findR_eq_none_iff rs leaf).2 h
     rw [this, if_neg h]
     simp only [Option.isSome_none, Bool.false_eq_true, if_false]
@@ -246,17 +247,19 @@ theorem prepare_good {L : Nat} {obs : List P} {rs : Reservoirs K P} (h : GoodRs 
   refine ⟨?_, ?_⟩
   · intro e he
     unfold prepare at he
+    rw [List.mem_filter] at he
+    obtain ⟨he, _⟩ := he
     split at he
     · exact h.good e he
-    · rw [List.mem_filter, List.mem_append] at he
-      rcases he.1 with he | he
+    · rw [List.mem_append] at he
+      rcases he with he | he
       · exact h.good e he
       · simp at he; rw [he]; exact GoodR.init L obs
   · rw [prepare_keys]
+    apply List.Nodup.filter
     split
     · exact h.nodup
     · rename_i hn
-      apply List.Nodup.filter
       rw [List.nodup_append]
       refine ⟨h.nodup, by simp, ?_⟩
       intro a ha b hb
@@ -280,13 +283,20 @@ theorem updateFeature_good {L : Nat} {obs : List P} {rs : Reservoirs K P} (h : G
       · exact hp.good e0 he0
   · rw [updateFeature_keys]; exact hp.nodup
 
-/-- which keys survive: the old keys if the routed leaf is already known (NO clean-up), otherwise the old keys and the
-    routed leaf, restricted to the current leaves -/
+/-- which keys survive: the old keys (and the routed leaf if it is new), restricted to the current leaves — the clean-up
+    runs on every update -/
 theorem updateFeature_keys_eq (L : Nat) (rs : Reservoirs K P) (leaf : Nat) (allLeaves : List Nat) (x : P) (rnd : Rnd K) :
     (updateFeature L rs leaf allLeaves x rnd).1.map Prod.fst =
-      if leaf ∈ rs.map Prod.fst then rs.map Prod.fst
-      else (rs.map Prod.fst ++ [leaf]).filter (fun k => allLeaves.contains k) := by
+      (if leaf ∈ rs.map Prod.fst then rs.map Prod.fst
+       else rs.map Prod.fst ++ [leaf]).filter (fun k => allLeaves.contains k) := by
   rw [updateFeature_keys, prepare_keys]
+
+/-- after the update every key is a current leaf -/
+theorem updateFeature_keys_leaves (L : Nat) (rs : Reservoirs K P) (leaf : Nat) (allLeaves : List Nat) (x : P)
+    (rnd : Rnd K) : ∀ k ∈ (updateFeature L rs leaf allLeaves x rnd).1.map Prod.fst, k ∈ allLeaves := by
+  intro k hk
+  rw [updateFeature_keys_eq, List.mem_filter] at hk
+  simpa using hk.2
 
 /-- the routed leaf has a reservoir after the update and it holds the new data point -/
 theorem updateFeature_newest {L : Nat} {obs : List P} {rs : Reservoirs K P} (h : GoodRs L obs rs) (hL : 1 ≤ L)
@@ -295,10 +305,11 @@ theorem updateFeature_newest {L : Nat} {obs : List P} {rs : Reservoirs K P} (h :
     ∃ r, findR (updateFeature L rs leaf allLeaves x rnd).1 leaf = some r ∧ x ∈ r.storage_x := by
   have hp := prepare_good h leaf allLeaves
   have hmem : leaf ∈ (prepare (K := K) L rs leaf allLeaves).map Prod.fst := by
-    rw [prepare_keys]
+    rw [prepare_keys, List.mem_filter]
+    refine ⟨?_, by simpa using hleaf⟩
     split
     · assumption
-    · simp [hleaf]
+    · simp
   rw [updateFeature_eq]
   cases hf : findR (prepare (K := K) L rs leaf allLeaves) leaf with
   | none => exact absurd hmem ((findR_eq_none_iff _ _).1 hf)
@@ -312,6 +323,21 @@ theorem updateFeature_newest {L : Nat} {obs : List P} {rs : Reservoirs K P} (h :
     rw [he]
     have := (find_some_mem he).2
     simp [this]
+
+/-- the SHIPPED behaviour (before `fix:` a088161), for documentation of the defect: when the routed leaf already has a
+    reservoir no clean-up happens and the keys are unchanged, whatever `allLeaves` is -/
+theorem updateFeatureShipped_keys_known (L : Nat) (rs : Reservoirs K P) (leaf : Nat) (allLeaves : List Nat) (x : P)
+    (rnd : Rnd K) (h : leaf ∈ rs.map Prod.fst) :
+    (updateFeatureShipped L rs leaf allLeaves x rnd).1.map Prod.fst = rs.map Prod.fst := by
+  have hs : (findR rs leaf).isSome = true := by
+    cases hf : findR rs leaf with
+    | none => exact absurd h ((findR_eq_none_iff rs leaf).1 hf)
+    | some r => rfl
+  unfold updateFeatureShipped
+  simp only [hs, if_true]
+  split
+  · rfl
+  · apply map_fst_map; intro e; split <;> rfl
 
 end Feature
 
